@@ -573,7 +573,7 @@ def rule_patterns(ctx, R, F):
 
 def rule_fused(ctx, R, F):
     R.rule('AES-FUSED', 'hashAndFillAes1Rx4: the hash lanes have the pattern of hashAes1Rx4 and the fill lanes the pattern of fillAes1Rx4 (same keys, states, extra rounds); in every iteration '
-           'block J is read (as round key) before it is overwritten; the two passes together cover exactly [0, scratchpadSize); the fill state is written back', min_instances=10)
+           'block J is read (as round key) before it is overwritten; the fill state is written back', min_instances=10)
     S = ctx.spec()
     keys1 = S.hex_keys('3.2')
     keysh = S.hex_keys('3.4')
@@ -639,22 +639,7 @@ def rule_fused(ctx, R, F):
         advs = [x for x in body if x[0] == 'advance']
         sp_adv = [x for x in advs if x[2:] == ('+=', 64)]
         R.check(len(sp_adv) >= 1, 'fused<%s> advances 64 bytes per iteration' % soft, where, expected='scratchpadPtr += 64', found=advs)
-        # coverage: the end pointer starts at ptr + size, is lowered by D before the passes and raised by D after each pass, two passes
-        endinit = [x for x in A.seq if x[0] == 'ptrinit' and x[2] == 'scratchpadEnd']
-        cov_ok = bool(endinit) and endinit[0][4] == 'scratchpadSize'
-        moves = []
-        for x in A.seq:
-            if x[0] == 'advance' and name_of_ptr(A, x[1]) == 'scratchpadEnd':
-                moves.append(('pre', x[2], x[3]))
-        if outer and outer[0] is not inner:
-            for x in outer[0][2]:
-                if x[0] == 'advance' and name_of_ptr(A, x[1]) == 'scratchpadEnd':
-                    moves.append(('in-pass', x[2], x[3]))
-        if moves:
-            pre = [m for m in moves if m[0] == 'pre']
-            inp = [m for m in moves if m[0] == 'in-pass']
-            cov_ok = cov_ok and len(pre) == 1 and len(inp) == 1 and pre[0][1] == '-=' and inp[0][1] == '+=' and pre[0][2] == inp[0][2] and trip == 2
-        R.check(cov_ok, 'fused<%s> passes cover exactly scratchpadSize bytes' % soft, where, expected='end = ptr + scratchpadSize; end -= D; 2 x { while (ptr < end) ...; end += D }', found='end init %s, moves %s, passes %s' % (endinit, moves, trip))
+        # coverage of [0, scratchpadSize) is decided by AES-COVER (address-arithmetic slice), not by the shape of the loop nest
         post = A.seq[A.seq.index(outer[0]) + 1:]
         wb = [x for x in post if x[0] == 'store' and x[1] == 'P3']
         R.check(sorted((x[2], flane.get(x[3])) for x in wb) == [(j, j) for j in range(4)], 'fused<%s> fill state written back' % soft, where, expected='fill state block J = fill_state J', found=sorted((x[2], flane.get(x[3])) for x in wb))
@@ -697,3 +682,239 @@ def rule_asm(ctx, R, F):
                     pat.append((r['name'], show(x['l']), show(r['a'][0]), show(r['a'][1])))
         expi = [('aesenc', 'freg[0]', 'freg[0]', 'ekey[i]'), ('aesdec', 'freg[1]', 'freg[1]', 'ekey[i]'), ('aesenc', 'freg[2]', 'freg[2]', 'ekey[i]'), ('aesdec', 'freg[3]', 'freg[3]', 'ekey[i]')]
         R.eq('%s v2 mix' % ex['q'].split('::')[1][:42], '%s:%d' % (ex['file'], ex['line']), expi, pat)
+
+
+# ---------------------------------------------------------------------------------------------
+# [AES-COVER] which 16-byte blocks of the buffer are read / written, in which order, as a function of the size
+class _Slice:
+    """Evaluates the address-arithmetic slice of a function (integer / byte-pointer locals, loops, loads and stores of
+    16-byte blocks); everything else (the AES rounds, vector locals) is skipped.  Pointers are integers; pointer parameters get
+    distinct bases."""
+    PTR1 = ('char', 'uint8_t', 'unsigned char', 'void')
+    PTR16 = ('rx_vec_i128', '__m128i', 'rx_vec_f128', '__m128d', 'uint8x16_t', 'long long __attribute__')
+
+    def __init__(self, f, env, limit):
+        self.f = f
+        self.env = dict(env)
+        self.limit = limit
+        self.steps = 0
+        self.loads = []
+        self.stores = []
+
+    def scale(self, ty):
+        t = (ty or '').replace('const ', '').strip()
+        if not t.endswith('*'):
+            return None
+        base = t[:-1].strip()
+        m = re.search(r'__vector_size__\((\d+) \* sizeof\((long long|double|int|float|char)\)\)', base)
+        if m:
+            return int(m.group(1)) * {'long long': 8, 'double': 8, 'int': 4, 'float': 4, 'char': 1}[m.group(2)]
+        if any(base == b or base.startswith(b) for b in self.PTR16):
+            return 16
+        if any(base == b for b in self.PTR1):
+            return 1
+        raise AnalysisBroken('AES-COVER: pointer arithmetic on %s in %s' % (ty, self.f['q']))
+
+    def ev(self, n):
+        v = val(n)
+        if v is not None and n['k'] not in ('Assign', 'CAssign', 'Un'):
+            return v
+        k = n['k']
+        if k == 'Cast':
+            return self.ev(n['e'])
+        if k == 'Paren':
+            return self.ev(n['e'])
+        if k == 'Ref':
+            return self.env.get(n.get('id'))
+        if k == 'Bin':
+            op = n['op']
+            a, b = self.ev(n['l']), self.ev(n['r'])
+            if a is None or b is None:
+                return None
+            if op in ('+', '-'):
+                sl, sr = self.scale(n['l'].get('ty')) if '*' in (n['l'].get('ty') or '') else None, self.scale(n['r'].get('ty')) if '*' in (n['r'].get('ty') or '') else None
+                if sl and not sr:
+                    b *= sl
+                elif sr and not sl:
+                    a *= sr
+                elif sl and sr and op == '-':
+                    return (a - b) // sl
+                return a + b if op == '+' else a - b
+            if op == '*':
+                return a * b
+            if op == '/':
+                return a // b if b else None
+            if op == '%':
+                return a % b if b else None
+            if op in ('<', '<=', '>', '>=', '==', '!='):
+                return int({'<': a < b, '<=': a <= b, '>': a > b, '>=': a >= b, '==': a == b, '!=': a != b}[op])
+            if op == '&&':
+                return int(bool(a) and bool(b))
+            if op == '||':
+                return int(bool(a) or bool(b))
+            if op in ('&', '|', '<<', '>>'):
+                return {'&': a & b, '|': a | b, '<<': a << b, '>>': a >> b}[op]
+            return None
+        if k == 'Un' and n['op'] == '!':
+            a = self.ev(n['e'])
+            return None if a is None else int(not a)
+        if k == 'Un' and n['op'] == '-':
+            a = self.ev(n['e'])
+            return None if a is None else -a
+        return None
+
+    def effects(self, n):
+        """record block loads / stores in evaluation order and apply assignments; returns nothing"""
+        k = n['k']
+        if k in ('Assign', 'CAssign'):
+            self.effects(n['r'])
+            l = strip_all(n['l'])
+            if l['k'] == 'Ref' and l.get('id') is not None:
+                if k == 'Assign':
+                    v = self.ev(n['r'])
+                else:
+                    a, b = self.env.get(l['id']), self.ev(n['r'])
+                    op = n['op'][:-1]
+                    if a is None or b is None:
+                        v = None
+                    else:
+                        sc = self.scale(l.get('ty')) if '*' in (l.get('ty') or '') else 1
+                        v = {'+': a + b * sc, '-': a - b * sc}.get(op)
+                if v is None:
+                    self.env.pop(l['id'], None)
+                else:
+                    self.env[l['id']] = v
+            return
+        if k == 'Un' and n.get('op') in ('++', '--', 'pre++', 'post++', 'pre--', 'post--') or (k == 'Un' and ('++' in n.get('op', '') or '--' in n.get('op', ''))):
+            l = strip_all(n['e'])
+            if l['k'] == 'Ref' and l.get('id') in self.env:
+                sc = self.scale(l.get('ty')) if '*' in (l.get('ty') or '') else 1
+                self.env[l['id']] += sc if '++' in n['op'] else -sc
+            return
+        if k == 'Call':
+            for a in n.get('a', []):
+                self.effects(a)
+            nm = n.get('name') or ''
+            if re.search(r'(^|_)load.*(si128|vec_i128|u8)$|^vld1q', nm) and n.get('a'):
+                self.loads.append((self.ev(n['a'][0]), len(self.stores)))
+            elif re.search(r'(^|_)store.*(si128|vec_i128|u8)$|^vst1q', nm) and n.get('a'):
+                self.stores.append((self.ev(n['a'][0]), len(self.loads)))
+            return
+        for key in ('e', 'l', 'r', 'c', 't', 'f'):
+            if astq.is_node(n.get(key)):
+                self.effects(n[key])
+
+    def run(self, s):
+        if s is None:
+            return
+        self.steps += 1
+        if self.steps > self.limit:
+            raise AnalysisBroken('AES-COVER: step limit in %s (loop does not terminate for this size?)' % self.f['q'])
+        k = s['k']
+        if k == 'Compound':
+            for x in s['s']:
+                if self.run(x) == 'ret':
+                    return 'ret'
+            return
+        if k == 'Decl':
+            for d in s['d']:
+                if 'init' in d:
+                    self.effects(d['init'])
+                    v = self.ev(d['init'])
+                    if v is not None and ('*' in (d.get('ty') or '') or re.search(r'\b(int|long|size_t|unsigned|char)\b', d.get('ty') or '')) and not any(t in (d.get('ty') or '') for t in ('__m128', 'rx_vec')):
+                        self.env[d['id']] = v
+            return
+        if k == 'If':
+            c = self.ev(s['c'])
+            if c is None:
+                raise AnalysisBroken('AES-COVER: branch %s in %s does not depend on the size alone' % (show(s['c'])[:60], self.f['q']))
+            return self.run(s['t'] if c else s.get('e'))
+        if k == 'While':
+            while True:
+                c = self.ev(s['c'])
+                if c is None:
+                    raise AnalysisBroken('AES-COVER: loop condition %s not evaluable in %s' % (show(s['c'])[:60], self.f['q']))
+                if not c:
+                    return
+                if self.run(s['b']) == 'ret':
+                    return 'ret'
+        if k == 'For':
+            self.run(s.get('init')) if astq.is_node(s.get('init')) and s['init']['k'] == 'Decl' else (self.effects(s['init']) if astq.is_node(s.get('init')) else None)
+            while True:
+                c = self.ev(s['c']) if astq.is_node(s.get('c')) else 1
+                if c is None:
+                    raise AnalysisBroken('AES-COVER: loop condition %s not evaluable in %s' % (show(s['c'])[:60], self.f['q']))
+                if not c:
+                    return
+                if self.run(s['b']) == 'ret':
+                    return 'ret'
+                if astq.is_node(s.get('inc')):
+                    self.effects(s['inc'])
+        if k == 'Return':
+            return 'ret'
+        if k in ('Null',):
+            return
+        if k in ('Do', 'Switch', 'ForRange', 'Goto', 'Label'):
+            raise AnalysisBroken('AES-COVER: unsupported control statement %s in %s' % (k, self.f['q']))
+        self.effects(s)
+
+
+def rule_cover(ctx, R, F, sizes=(64, 128, 4032, 4096, 4160, 8384, 69568)):
+    if getattr(ctx, 'tier', 'quick') == 'thorough':
+        sizes = tuple(sizes) + (2097152,)
+    R.rule('AES-COVER', 'for every size that is a multiple of 64 the AES functions touch exactly the blocks of the buffer: the hash functions read block 0, 1, ... size/16 - 1 once each in ascending order, the generators '
+           'write them once each in ascending order, the fused function does both and reads every block before it overwrites it; decided by evaluating the address-arithmetic slice of each function (loops, '
+           'pointer and counter updates, loads / stores; AES rounds skipped) for a set of sizes around the internal 4096-byte prefetch distance', min_instances=40)
+    BASES = (1 << 24, 2 << 24, 3 << 24, 4 << 24)
+    plan = [('hashAes1Rx4', 'r', 0, 1), ('fillAes1Rx4', 'w', 2, 1), ('fillAes4Rx4', 'w', 2, 1), ('hashAndFillAes1Rx4', 'rw', 0, 1)]
+    for fname, mode, bufp, sizep in plan:
+        for soft in ('true', 'false'):
+            f = F.func('%s<%s>' % (fname, soft))
+            where = '%s:%d' % (f['file'], f['line'])
+            R.saw(fn=f['q'])
+            for S in sizes:
+                env = {}
+                for i, p in enumerate(f['params']):
+                    if '*' in p['ty']:
+                        env[p['id']] = BASES[i]
+                    else:
+                        env[p['id']] = S
+                sl = _Slice(f, env, limit=40 * (S // 64) + 4000)
+                sl.run(f['body'])
+                base = BASES[bufp]
+                want = [base + 16 * j for j in range(S // 16)]
+                inbuf = lambda a: a is not None and base - (1 << 23) <= a < base + (1 << 23)
+                rd = [a for a, _ in sl.loads if a is None or inbuf(a)]
+                wr = [a for a, _ in sl.stores if a is None or inbuf(a)]
+                ok = True
+                found = []
+                if 'r' in mode and rd != want:
+                    ok = False
+                    found.append('reads %d blocks%s' % (len(rd), _first_diff(rd, want, base)))
+                if 'w' in mode and wr != want:
+                    ok = False
+                    found.append('writes %d blocks%s' % (len(wr), _first_diff(wr, want, base)))
+                if 'r' not in mode and rd:
+                    ok = False
+                    found.append('reads the output buffer')
+                if 'w' not in mode and wr:
+                    ok = False
+                    found.append('writes the input buffer')
+                if mode == 'rw' and ok:
+                    # the load of block j happens before the store to block j
+                    lpos = {a: n for n, (a, nst) in enumerate(sl.loads) if inbuf(a)}
+                    for a, nld in sl.stores:
+                        if inbuf(a) and not (a in lpos and lpos[a] < nld):
+                            ok = False
+                            found.append('block at +%d overwritten before it is read' % (a - base))
+                            break
+                R.check(ok, '%s<%s> size %d' % (fname, soft, S), where, expected='%s blocks +0, +16, ... +%d once each, ascending' % ({'r': 'reads', 'w': 'writes', 'rw': 'reads then writes'}[mode], S - 16), found='; '.join(found) or 'as expected')
+
+
+def _first_diff(got, want, base):
+    for i, (a, b) in enumerate(zip(got, want)):
+        if a != b:
+            return ' (block #%d is at %s, expected +%d)' % (i, 'unknown address' if a is None else '+%d' % (a - base), b - base)
+    if len(got) != len(want):
+        return ' (expected %d)' % len(want)
+    return ''
